@@ -1,11 +1,14 @@
 CHECK = {
     "obligations": ["C12.c12_count", "C12.c12_teardown", "C12.c12_refuses", "C12.c12_timeout", "C12.c12_conns",
-                    "C12.gen_structure", "C12.gen_timeout", "C12.c12_pinned_open_witness"],
+                    "C12.gen_structure", "C12.gen_timeout", "C12.c12_pinned_open_witness",
+                    "C12L.c12_lock_order", "C12L.gen_rank_ordered", "C12L.gen_nontrivial", "C12L.ok_iff_ctx", "Locks.locks_rank_ordered_no_deadlock"],
+    "lean_module": "CloakModel.Props.C12Locks",
     "scenarios": ["C12"],
     "reset_ops": ["ss.new"],
     "rule": "seeded scripts of 10..60 operations (open/write/deliver-one-record/accept/read/closeStream/close/fault/propagate/tick) on a pair of real "
             "sessions over a harness-controlled in-memory network inside testing/synctest, 4 methods, 1..4 connections, singleplex; a fault at every "
             "frame boundary of 1..4 in-flight frames; the OpenStream-vs-Close schedule via VerifPoint. distinct = distinct op-kind sequences; all non-trivial",
     "assumptions": ["sync.Cond/channel wake-ups and timers are runtime behaviour: covered by the harness monitors under testing/synctest, not by the theorems",
-                    "a connection fault is seen by both ends (property text)"],
+                    "a connection fault is seen by both ends (property text)",
+                    "lock order: a loop body is counted once; sync.Cond.Wait and the one channel send under streamsM (acceptCh, capacity 1024) return; RWMutex treated like Mutex"],
 }
